@@ -30,7 +30,8 @@ type flagSet struct {
 
 type window struct{ R, C, O int }
 
-var c05Locals = []string{"none", "stash-tracked", "stash-u", "stash-ki", "stash-2", "wt-branch", "wt-detached-staged", "staged", "all"}
+var c05Locals = []string{"none", "stash-tracked", "stash-u", "stash-ki", "stash-2", "wt-branch", "wt-detached-staged", "staged", "all",
+	"staged-edited", "staged-deleted", "restaged", "restaged-edited", "restaged-deleted", "wt-detached-staged-edited", "wt-detached-staged-deleted"}
 var c05Pushes = []string{"none", "partial", "full", "backup"}
 
 type histHead struct{ Hist, Head string }
@@ -363,7 +364,8 @@ func c05Products(thorough bool) []product {
 	}
 	locals := c05Locals
 	if !thorough {
-		locals = []string{"none", "stash-u", "stash-ki", "stash-2", "wt-detached-staged", "staged", "all"}
+		locals = []string{"none", "stash-u", "stash-ki", "stash-2", "wt-detached-staged", "staged", "all",
+			"staged-edited", "staged-deleted", "restaged", "wt-detached-staged-deleted"}
 	}
 	// worlds per date profile; the second window only makes a difference for the fresh profile and is crossed with it only
 	worldsA := make([][]worldSpec, len(profiles))
@@ -555,11 +557,11 @@ func TestVerifC05(t *testing.T) {
 		fmt.Println("TOOL-ERROR replay names unknown scenario", rf.Scenario)
 		os.Exit(2)
 	}
-	deadline := c.DeadlineAfter(160*time.Second, 22*time.Minute)
+	deadline := c.DeadlineAfter(300*time.Second, 22*time.Minute)
 	// the three products run side by side, sharing the cores roughly in proportion to their size
-	share := map[string]int{"structural": 9, "dates": 2, "config": 5}
+	share := map[string]int{"structural": 12, "dates": 6, "config": 6}
 	if c.Thorough() {
-		share = map[string]int{"structural": 9, "dates": 4, "config": 3}
+		share = map[string]int{"structural": 13, "dates": 7, "config": 4}
 	}
 	var parts []vx.Part
 	var wg sync.WaitGroup
@@ -602,6 +604,15 @@ func TestVerifC05(t *testing.T) {
 	}
 	c05FpMu.Unlock()
 	extra := map[string]interface{}{"oracle_clauses": clauses, "worlds_built": c05Built, "violating_cases_by_fingerprint": fpc}
+	if f := os.Getenv("VERIF_C05_OUTCOMES"); f != "" { // development aid: dump the outcome histogram
+		all := map[string]int64{}
+		for _, pt := range parts {
+			for k, v := range pt.Stats.Outcomes {
+				all[pt.Scenario+"|"+k] += v
+			}
+		}
+		vx.WriteJSON(f, all)
+	}
 	code := c.Finish(parts, extra)
 	c05CacheMu.Lock()
 	for _, e := range c05Cache {
